@@ -237,6 +237,56 @@ def case_json(c):
                 shape=c["shape"], op=c["op"], mask=c["mask"], mk=c["mk"], sort=c["sort"], observed_only=c["observed_only"], layout=c["layout"])
 
 
+def shape_sweep(res, GroupBy):
+    """One fixed dataset: reductions AND the row-aligned / selecting operations (transform, cumulative, rolling in both layouts,
+    shift / diff, ema, head / tail / nth, margins, masks, quantile, apply) are run on a collection of two inputs in every shape
+    (list of Series, dict, pandas / polars frame, 2-D array, list of arrays) and every column is compared with the single-input call."""
+    k = np.array([1, 0, 1, -5, 2, 0, 1])
+    a = np.array([1., np.nan, 4, 8, 16, 32, 64])
+    b = np.array([3., 5, 7, 11, 13, 17, 19])
+    m = np.array([True, True, False, True, True, True, True])
+    ops = {
+        "sum": lambda gb, v: gb.sum(v), "mean_transform": lambda gb, v: gb.mean(v, transform=True), "median": lambda gb, v: gb.median(v), "var": lambda gb, v: gb.var(v), "std": lambda gb, v: gb.std(v),
+        "cumsum": lambda gb, v: gb.cumsum(v), "cummax": lambda gb, v: gb.cummax(v), "rolling_sum": lambda gb, v: gb.rolling_sum(v, 2, min_periods=1),
+        "rolling_max_by_groups": lambda gb, v: gb.rolling_max(v, 2, min_periods=1, index_by_groups=True), "shift": lambda gb, v: gb.shift(v, 1), "diff": lambda gb, v: gb.diff(v, 1),
+        "ema": lambda gb, v: gb.ema(v, alpha=0.5), "head": lambda gb, v: gb.head(v, 1), "tail": lambda gb, v: gb.tail(v, 2), "nth": lambda gb, v: gb.nth(v, 1),
+        "sum_margins": lambda gb, v: gb.sum(v, margins=True), "last_mask": lambda gb, v: gb.last(v, mask=m), "quantile": lambda gb, v: gb.quantile(v, [0.5]), "apply": lambda gb, v: gb.apply(v, np.nanmax),
+        "count_all_labels": lambda gb, v: gb.count(v, observed_only=False),
+    }
+    shapes = {
+        "list": lambda: [pd.Series(a, name="a"), pd.Series(b, name="b")], "dict": lambda: {"a": a, "b": b}, "frame": lambda: pd.DataFrame({"a": a, "b": b}),
+        "plframe": lambda: pl.DataFrame({"a": a, "b": b}), "array2d": lambda: np.column_stack([a, b]), "list_arrays": lambda: [a, b],
+    }
+
+    def ser(r):
+        if isinstance(r, pl.Series):
+            r = r.to_pandas()
+        return (list(map(str, r.index.tolist())), [None if pd.isna(x) else round(float(x), 9) for x in r.tolist()])
+    for name, f in ops.items():
+        try:
+            ra, rb = ser(f(GroupBy(k), a)), ser(f(GroupBy(k), b))
+        except Exception as e:  # noqa: BLE001
+            res.violations.append(dict(sig=dict(level="api", stream="shape-sweep", what="single-input-raised", op=name), case=dict(op=name), observed=repr(e)[:200], expected="a result", what=f"{name} raised on a single input"))
+            continue
+        for sh, mk in shapes.items():
+            case = dict(stream="shape-sweep", op=name, shape=sh)
+            res.note_case(repr(case), True)
+            res.count("shape_sweep", sh)
+            try:
+                r = f(GroupBy(k), mk())
+                if isinstance(r, pl.DataFrame):
+                    r = r.to_pandas()
+                if not isinstance(r, pd.DataFrame) or r.shape[1] != 2:
+                    got = f"{type(r).__name__} of shape {getattr(r, 'shape', None)}"
+                else:
+                    got = (ser(r.iloc[:, 0]), ser(r.iloc[:, 1]))
+            except Exception as e:  # noqa: BLE001
+                got = "raised " + type(e).__name__ + ": " + str(e)[:100]
+            if got != (ra, rb):
+                res.violations.append(dict(sig=dict(level="api", stream="shape-sweep", what="column-vs-single", op=name, shape=sh), case=case, observed=str(got)[:300], expected=str((ra, rb))[:300],
+                                           what=f"{name} on a {sh} of two inputs: a column differs from the result for that input alone"))
+
+
 def run(res, tier="quick", seed=0, widen=False):
     from groupby_lib import GroupBy
     rng = random.Random(seed * 47 + 11 + (1 if widen else 0))
@@ -244,7 +294,8 @@ def run(res, tier="quick", seed=0, widen=False):
     res.rule = ("seeded random logical datasets: 1-3 keys (int/float/str/datetime/categorical with alphabetical, shuffled and reversed category orders, categorical also as "
                 "non-first key, time-zone aware datetimes), rows in random order or pre-sorted by the raw key values, named and unnamed keys; values as named/unnamed Series, array, polars Series, list, "
                 "dict, pandas/polars frame, 2-D array, lists whose members share a name; 10 reductions; sort on/off; observed_only on/off; masks incl. whole-group-out; checks: label set, order, level count and "
-                "names, Series name / column labels, container type, every column equal to the single-input result; non-trivial = >= 2 labels; distinct = canonical case")
+                "names, Series name / column labels, container type, every column equal to the single-input result; plus a sweep of the row-aligned and selecting operations (transform, cumulative, rolling, shift/diff, ema, head/tail/nth, margins, quantile, apply) over every collection shape; non-trivial = >= 2 labels; distinct = canonical case")
+    shape_sweep(res, GroupBy)
     for ci in range(n_cases):
         c = gen_case(rng, tier)
         cj = case_json(c)
